@@ -302,6 +302,8 @@ impl Tr {
             (SELF, 14, Av::Transfer(ADM, now0 + 40 + rng.below(40) as u32)), (SELF, 15, Av::Nil), (SELF, 16, Av::Nil),
             (TGT, 0, Av::U32(1)), (TGT, 0, Av::U32(2)), (TGT, 1, Av::U32(3)), (DEAD, 0, Av::U32(1)), (SELF, 21, Av::Nil),
             (SELF, 11, Av::Role(SELF, 2, SELF)),
+            (SELF, 12, Av::Role(X2, 2, SELF)), (SELF, 12, Av::Role(ADM, 2, SELF)), (SELF, 12, Av::Role(OUT, 2, SELF)),
+            (SELF, 12, Av::Role(P2, 1, SELF)), (SELF, 12, Av::Role(P2, 3, SELF)), (SELF, 12, Av::Role(SELF, 2, SELF)),
         ];
         // shuffle, keep nops, but always keep one update_delay first
         if !plain { for i in (2..pool.len()).rev() { let j = 1 + rng.below(i as u64) as usize; pool.swap(i, j); } }
@@ -392,7 +394,7 @@ impl Tr {
                 let r = self.w.invoke(18, args, au);
                 let res = r.map(|v| { let idb = BytesN::<32>::try_from_val(&e, &v).unwrap(); Some(self.w.id_ix(idb.to_array())) });
                 let oc = self.w.op_coq(&o); let ac = self.w.authz_coq(au);
-                (format!("ScheduleOp {} {} {} {}", oc, d, n(*p as u64), ac), "schedule_op".into(), res)
+                (format!("ScheduleOp {} {} {} {}", oc, d, n(*p as u64), ac), tagged("schedule_op", au.tag), res)
             }
             C::Execute(k, x, au) => {
                 let o = self.ops[*k].clone();
@@ -402,7 +404,7 @@ impl Tr {
                 let r = self.w.invoke(19, args, au);
                 let tgt_ok = o.target == TGT && o.f == 0;
                 let oc = self.w.op_coq(&o); let ac = self.w.authz_coq(au);
-                (format!("ExecuteOp {} {} {} {}", oc, opt(x.map(|a| n(a as u64))), b(tgt_ok), ac), (if o.target == SELF { "execute_op_self" } else { "execute_op" }).into(), r.map(|_| None))
+                (format!("ExecuteOp {} {} {} {}", oc, opt(x.map(|a| n(a as u64))), b(tgt_ok), ac), tagged(if o.target == SELF { "execute_op_self" } else { "execute_op" }, au.tag), r.map(|_| None))
             }
             C::Cancel(ix, k, au) => {
                 let e = self.w.e.clone();
@@ -410,7 +412,7 @@ impl Tr {
                 if au.selfe.is_some() { let a = Av::Cancel(self.w.ids[*ix], *k); self.w.av_ix(&a); }
                 let r = self.w.invoke(20, args, au);
                 let ac = self.w.authz_coq(au);
-                (format!("CancelOp {} {} {}", n(*ix as u64), n(*k as u64), ac), "cancel_op".into(), r.map(|_| None))
+                (format!("CancelOp {} {} {}", n(*ix as u64), n(*k as u64), ac), tagged("cancel_op", au.tag), r.map(|_| None))
             }
             C::Admin(f, av, au) => {
                 // the situation the call meets (part of the label): who is admin, are executors configured, state of the
@@ -506,6 +508,120 @@ impl Tr {
     fn min_delay(&self) -> u32 { match self.client().try_get_min_delay() { Ok(Ok(v)) => v, _ => 0 } }
     fn holders(&self, r: usize) -> std::vec::Vec<usize> { (1..=NADDR).filter(|a| matches!(self.client().try_has_role(&self.w.addrs[*a], &self.w.role(r)), Ok(Ok(Some(_))))).collect() }
     fn admin(&self) -> Option<usize> { match self.client().try_get_admin() { Ok(Ok(Some(a))) => self.w.addrs.iter().position(|x| *x == a), _ => None } }
+}
+
+fn tagged(base: &str, tag: &str) -> String { if tag.is_empty() { base.to_string() } else { format!("{}:{}", base, tag) } }
+
+// ---------- role enumerations (swap-and-pop): the harness's own shadow, used for LABELS only ----------
+/// the situation a removal meets: members before, position of the removed account (only / last / penult / first / mid),
+/// and whether an earlier removal relocated that account into a vacated slot
+fn enum_tag(list: &[usize], moved: &[usize], a: usize) -> &'static str {
+    let k = list.len();
+    let s = match list.iter().position(|x| *x == a) {
+        None => format!("enum-n{}-absent", k),
+        Some(i) => {
+            let pos = if k == 1 { "only" } else if i == k - 1 { "last" } else if i == k - 2 { "penult" } else if i == 0 { "first" } else { "mid" };
+            format!("enum-n{}-{}{}", k, pos, if moved.contains(&a) { "+moved" } else { "" })
+        }
+    };
+    Box::leak(s.into_boxed_str())
+}
+fn shadow_remove(list: &mut std::vec::Vec<usize>, moved: &mut std::vec::Vec<usize>, a: usize) {
+    if let Some(i) = list.iter().position(|x| *x == a) {
+        let last = list.len() - 1;
+        if i != last { let m = list[last]; list[i] = m; if !moved.contains(&m) { moved.push(m); } }
+        list.pop(); moved.retain(|x| *x != a);
+    }
+}
+fn dedup(xs: &[usize]) -> std::vec::Vec<usize> { let mut v = std::vec![]; for x in xs { if !v.contains(x) { v.push(*x); } } v }
+fn permutations(k: usize) -> std::vec::Vec<std::vec::Vec<usize>> {
+    if k == 0 { return std::vec![std::vec![]]; }
+    let mut out = std::vec![];
+    for p in permutations(k - 1) { for i in 0..k { let mut q = p.clone(); q.insert(i, k - 1); out.push(q); } }
+    out.sort(); out
+}
+
+#[derive(Clone, Copy, Debug)]
+enum EStep { Revoke(usize, usize), Renounce(usize, usize), Grant(usize, usize) }   // (role, account)
+
+/// Directed family: roles with MANY members (constructor lists may repeat accounts and may name the controller), members
+/// removed in a given order by revoke_role (through the timelock when the controller is its own admin, directly by an
+/// external admin) or renounce_role, granted again; after every removal each account removed so far tries to use the role
+/// (schedule_op / cancel_op / execute_op / as the executor of a consuming authorisation), at the end a remaining member does.
+fn enum_scenario(out: &mut Out, rng: &mut Rng, desc: &str, now0: u32, props: &[usize], execs: &[usize], admin: Option<usize>, hc: usize, steps: &[EStep]) {
+    let mut tr = Tr::new_h(rng, now0, 1, props, execs, admin, 1, true, hc);
+    let z = [0u8; 32];
+    let pa = |p: usize| { let mut a = Authz::default(); a.plain.push(p); a };
+    let pt = |p: usize, t: &'static str| { let mut a = Authz::default(); a.plain.push(p); a.tag = t; a };
+    let self_admin = admin.is_none();
+    // operations: one per timelocked step, probes
+    let mut step_ops: std::vec::Vec<Option<OpD>> = std::vec![];
+    for (i, st) in steps.iter().enumerate() {
+        step_ops.push(match st {
+            EStep::Revoke(r, a) if self_admin => Some(OpD { target: SELF, f: 12, av: Av::Role(*a, *r, SELF), pred: z, salt: 100 + i as u8 }),
+            EStep::Grant(r, a) if self_admin => Some(OpD { target: SELF, f: 11, av: Av::Role(*a, *r, SELF), pred: z, salt: 100 + i as u8 }),
+            _ => None,
+        });
+    }
+    let ext1 = OpD { target: TGT, f: 0, av: Av::U32(1), pred: z, salt: 90 };
+    let ext2 = OpD { target: TGT, f: 0, av: Av::U32(2), pred: z, salt: 91 };
+    let sp = OpD { target: TGT, f: 0, av: Av::U32(3), pred: z, salt: 92 };
+    let u1 = OpD { target: SELF, f: 10, av: Av::U32(5), pred: z, salt: 93 };
+    let ks: std::vec::Vec<Option<usize>> = step_ops.iter().map(|o| o.as_ref().map(|o| tr.add_op(o.clone()))).collect();
+    let k_e1 = tr.add_op(ext1.clone()); let k_e2 = tr.add_op(ext2.clone()); let k_sp = tr.add_op(sp.clone()); let k_u1 = tr.add_op(u1.clone());
+    let mut sh: [std::vec::Vec<usize>; 4] = [std::vec![], dedup(props), dedup(execs), dedup(props)];
+    let mut moved: [std::vec::Vec<usize>; 4] = [std::vec![], std::vec![], std::vec![], std::vec![]];
+    let mut gone: std::vec::Vec<(usize, usize)> = std::vec![];
+    let p0 = sh[1][0];
+    for k in ks.iter().flatten() { tr.call(out, &C::Schedule(*k, 1, p0, pa(p0))); }
+    for k in [k_e1, k_e2] { tr.call(out, &C::Schedule(k, 1, p0, pa(p0))); }
+    if self_admin { tr.call(out, &C::Schedule(k_u1, 1, p0, pa(p0))); }
+    tr.call(out, &C::Advance(1));
+    let signer = |sh: &[std::vec::Vec<usize>; 4]| sh[2].last().copied();
+    for (i, st) in steps.iter().enumerate() {
+        let (role, acct, removal) = match st { EStep::Revoke(r, a) | EStep::Renounce(r, a) => (*r, *a, true), EStep::Grant(r, a) => (*r, *a, false) };
+        let was_member = sh[role].contains(&acct);
+        let tag: &'static str = if removal { enum_tag(&sh[role], &moved[role], acct) }
+            else if gone.contains(&(role, acct)) { "enum-regrant" } else if was_member { "enum-grant-again" } else { "enum-grant" };
+        let ok = match st {
+            EStep::Renounce(r, a) => { tr.call(out, &C::Admin(17, Av::Renounce(*r, *a), pt(*a, tag))) }
+            EStep::Revoke(..) | EStep::Grant(..) => {
+                let f = if removal { 12 } else { 11 };
+                match &step_ops[i] {
+                    Some(o) => { let mut au = good_self(o, signer(&sh)); au.tag = tag; tr.call(out, &C::Admin(f, o.av.clone(), au)) }
+                    None => { let ad = admin.unwrap(); tr.call(out, &C::Admin(f, Av::Role(acct, role, ad), pt(ad, tag))) }
+                }
+            }
+        };
+        if ok && removal { shadow_remove(&mut sh[role], &mut moved[role], acct); if !gone.contains(&(role, acct)) { gone.push((role, acct)); } }
+        if ok && !removal { if !sh[role].contains(&acct) { sh[role].push(acct); } gone.retain(|g| *g != (role, acct)); }
+        if !removal { continue; }
+        // every account removed from this role so far tries to use it
+        for &(r, a) in gone.iter().filter(|g| g.0 == role && g.1 != SELF) {
+            match r {
+                1 => { tr.call(out, &C::Schedule(k_sp, 1, a, pt(a, "revoked-member"))); }
+                3 => { tr.call(out, &C::Cancel(tr.op_ids[k_e2], a, pt(a, "revoked-member"))); }
+                2 if !sh[2].is_empty() => {
+                    tr.call(out, &C::Execute(k_e1, Some(a), pt(a, "revoked-member")));
+                    if self_admin && a == acct { let mut au = good_self(&u1, Some(a)); au.tag = "executor-revoked"; tr.call(out, &C::Admin(10, u1.av.clone(), au)); }
+                }
+                _ => {}
+            }
+        }
+    }
+    // a remaining member of each role uses it
+    if let Some(&a) = sh[1].iter().find(|a| **a != SELF) { tr.call(out, &C::Schedule(k_sp, 1, a, pt(a, "remaining-member"))); }
+    else { for a in [P1, OUT] { tr.call(out, &C::Schedule(k_sp, 1, a, pt(a, "no-proposer-left"))); } }
+    if let Some(&a) = sh[3].iter().find(|a| **a != SELF) { tr.call(out, &C::Cancel(tr.op_ids[k_e2], a, pt(a, "remaining-member"))); }
+    match sh[2].iter().find(|a| **a != SELF).copied() {
+        Some(a) => {
+            tr.call(out, &C::Execute(k_e1, Some(a), pt(a, "remaining-member")));
+            if self_admin { let mut au = good_self(&u1, Some(a)); au.tag = "executor-remaining"; tr.call(out, &C::Admin(10, u1.av.clone(), au)); }
+        }
+        None if sh[2].is_empty() => { let mut au = Authz::default(); au.tag = "no-executor-left"; tr.call(out, &C::Execute(k_e1, None, au)); }
+        None => {}
+    }
+    tr.finish(out, desc);
 }
 
 // ---------- generators ----------
@@ -975,6 +1091,54 @@ fn main() {
         tr.call(&mut out, &C::Admin(11, Av::Role(P2, 4, OUT), pa(OUT)));
         tr.finish(&mut out, "directed/role-admin-delegation");
     }
+    // ---------- role enumerations with four and more members ----------
+    // EXECUTOR: every order of removing three of four executors through the timelock (the signer of the consuming
+    // authorisation is the executor enumerated last at that moment - also when it is the one being revoked)
+    for (pi, perm) in permutations(4).iter().enumerate() {
+        let m = [X1, X2, ADM, OUT];
+        let steps: std::vec::Vec<EStep> = perm[..3].iter().map(|i| EStep::Revoke(2, m[*i])).collect();
+        enum_scenario(&mut out, &mut rng, &format!("directed/enum-executors-{}{}{}", perm[0], perm[1], perm[2]), 1000 + pi as u32, &[P1], &m, None, pi % 2, &steps);
+    }
+    // PROPOSER and CANCELLER (two enumerations of the same four accounts, emptied in different orders)
+    {
+        let m = [P1, P2, ADM, OUT];
+        let fixed: [[usize; 4]; 6] = [[1, 3, 2, 0], [0, 1, 2, 3], [3, 2, 1, 0], [1, 0, 3, 2], [2, 0, 1, 3], [0, 2, 3, 1]];
+        let mut orders: std::vec::Vec<std::vec::Vec<usize>> = if thorough { permutations(4) } else { fixed.iter().map(|o| o.to_vec()).collect() };
+        if !thorough { let all = permutations(4); orders.push(all[rng.below(24) as usize].clone()); }
+        for (oi, o) in orders.iter().enumerate() {
+            let mut steps: std::vec::Vec<EStep> = std::vec![];
+            for j in 0..4 {
+                steps.push(EStep::Revoke(1, m[o[j]]));
+                if j < 3 { steps.push(EStep::Revoke(3, m[o[(j + 1) % 4]])); }
+            }
+            enum_scenario(&mut out, &mut rng, &format!("directed/enum-proposers-{}{}{}{}", o[0], o[1], o[2], o[3]), 1100 + oi as u32, &m, &[], None, oi % 2, &steps);
+        }
+    }
+    // constructor lists with repeated accounts and with the controller itself; renounce_role by the holder, revoke_role,
+    // grant_role again (re-enumerated at the end), five and six members; through the timelock and by an external admin
+    for (fi, admin) in [None, Some(ADM)].iter().enumerate() {
+        let execs = [X1, X2, X1, ADM, OUT, SELF, P2, X2];            // six distinct executors, two repeated
+        let props = [P1, P1, OUT];
+        let steps = [EStep::Renounce(2, X2), EStep::Revoke(2, P2), EStep::Revoke(2, OUT), EStep::Grant(2, X2), EStep::Grant(2, X1),
+                     EStep::Renounce(2, ADM), EStep::Revoke(2, X2), EStep::Grant(2, OUT), EStep::Revoke(2, X1), EStep::Revoke(3, P1), EStep::Renounce(1, OUT),
+                     EStep::Revoke(2, SELF), EStep::Revoke(2, TGT)];
+        enum_scenario(&mut out, &mut rng, &format!("directed/enum-mixed-admin{}", fi), 1200, &props, &execs, *admin, fi, &steps);
+        // five executors, the order drawn from the seed
+        let m = [X1, X2, ADM, OUT, P2];
+        let mut idx: std::vec::Vec<usize> = (0..5).collect();
+        for i in (1..5).rev() { let j = rng.below(i as u64 + 1) as usize; idx.swap(i, j); }
+        let steps: std::vec::Vec<EStep> = idx[..4].iter().map(|i| if rng.chance(1, 3) { EStep::Renounce(2, m[*i]) } else { EStep::Revoke(2, m[*i]) }).collect();
+        enum_scenario(&mut out, &mut rng, &format!("directed/enum-five-random-admin{}", fi), 1300, &[P1, P2], &m, *admin, 1 - fi, &steps);
+    }
+    // an external admin empties five executors in the orders that relocate an account twice
+    for (oi, o) in [[1usize, 0, 4, 2, 3], [0, 1, 0, 0, 0], [3, 1, 4, 0, 2]].iter().enumerate() {
+        let m = [X1, X2, ADM, OUT, P2];
+        // o = positions in the CURRENT enumeration (shadow), so that the situations are hit whatever the accounts are
+        let mut cur: std::vec::Vec<usize> = m.to_vec(); let mut mv: std::vec::Vec<usize> = std::vec![];
+        let mut steps: std::vec::Vec<EStep> = std::vec![];
+        for &pos in o.iter() { if cur.is_empty() { break; } let a = cur[pos % cur.len()]; steps.push(EStep::Revoke(2, a)); shadow_remove(&mut cur, &mut mv, a); }
+        enum_scenario(&mut out, &mut rng, &format!("directed/enum-external-admin-{}", oi), 1400, &[P1], &m, Some(ADM), oi % 2, &steps);
+    }
     let nshape = 18u64;
     for nexec in 0..=1usize { for state in 0..=4u8 { for shape in 0..nshape {
         let core = state == 2 && nexec == 1;   // always: every payload shape against a Ready operation, executors configured
@@ -987,8 +1151,13 @@ fn main() {
     let ntraces = if std::env::var("VERIF_DIRECTED_ONLY").is_ok() { 0 } else { (if thorough { 1500 } else { 190 }) * scale };
     for t in 0..ntraces {
         let nexec = rng.below(3) as usize;
-        let execs: std::vec::Vec<usize> = [X1, X2][..nexec].to_vec();
-        let props: std::vec::Vec<usize> = if rng.chance(1, 3) { std::vec![P1, P2] } else { std::vec![P1] };
+        let mut execs: std::vec::Vec<usize> = [X1, X2][..nexec].to_vec();
+        let mut props: std::vec::Vec<usize> = if rng.chance(1, 3) { std::vec![P1, P2] } else { std::vec![P1] };
+        if rng.chance(1, 4) {   // crowded roles (repetitions allowed)
+            let cand = [X1, X2, ADM, OUT, P2, SELF, P1];
+            execs = (0..3 + rng.below(4)).map(|_| *rng.pick(&cand)).collect();
+            if rng.chance(1, 2) { props = std::vec![P1]; for _ in 0..2 + rng.below(3) { props.push(*rng.pick(&cand[..5])); } }
+        }
         let admin = if rng.chance(1, 4) { Some(ADM) } else { None };
         let start = match rng.below(4) { 0 => 2, 1 => 3, _ => 2 + rng.below(500) as u32 };
         let nops = 5 + rng.below(6) as usize;
